@@ -66,12 +66,17 @@ VARIABLES
   marks,      \* post-call observation: set of [t, marked, anc] -- an instance of task t reachable from the
               \* requested instances through the chain of tasks anc; marked iff its result_meta is set
   emitted,    \* sequence of message tokens emitted by tasks (logger records, stdout / stderr lines)
+  emitBy,     \* emitBy[i] = the task that emitted emitted[i]
   delivered,  \* sequence of message tokens that reached the caller's labtech logger handlers
-  obsLogs     \* TRUE once the delivered messages have been observed (after the call)
+  obsLogs,    \* TRUE once the delivered messages have been observed (after the call)
+  \* ---- beyond the listed properties (G..): task names and progress bars
+  subSeq,     \* the tasks in the order in which they were submitted to the runner
+  names,      \* names[t] = the process name the worker of t saw while running / loading t, "" if none observed
+  pbar        \* pbar[y] = [made, total, n, closed]: the progress bar of type y (y = 0: a bar that belongs to no type)
 
 avars == <<cfg, phase, exc, subCount, viaCache, slot, inrun, runCount, loadCount, fin, done, died, held,
            captured, dig, reads, atrest, intCount, outKeys, outVals, lateStart, idlePolls,
-           cachedNow, cacheVals, obsCache, envok, marks, emitted, delivered, obsLogs>>
+           cachedNow, cacheVals, obsCache, envok, marks, emitted, emitBy, delivered, obsLogs, subSeq, names, pbar>>
 
 -----------------------------------------------------------------------------
 (* Derived notions *)
@@ -242,5 +247,38 @@ Count(m, s) == Cardinality({i \in DOMAIN s : s[i] = m})
 C19_ExactlyOnce ==
     (obsLogs /\ phase = "returned") =>
        \A m \in Range(emitted) \cup Range(delivered) : Count(m, emitted) = Count(m, delivered)
+(* run_tasks may also leave by raising (fail-fast LabError): what the tasks it has completed -- in particular the *)
+(* failing one -- emitted has been delivered by then; and nothing is ever delivered twice or invented.           *)
+C19_DeliveredBeforeRaise ==
+    (obsLogs /\ phase = "raised" /\ intCount = 0) =>
+       \A i \in DOMAIN emitted : done[emitBy[i]] # "none" => Count(emitted[i], delivered) = Count(emitted[i], emitted)
+C19_NeverTwice ==
+    obsLogs => \A m \in Range(delivered) : Count(m, delivered) <= Count(m, emitted)
 
+
+-----------------------------------------------------------------------------
+(* Beyond the listed properties.                                                                        *)
+(* G01  every task is run / loaded under the process name  <type name>[<k>], k = its 1-based rank among *)
+(*      the submissions of its type, zero-padded to ceil(log10(number of planned tasks of the type))    *)
+(* G02  one progress bar per planned type, total = planned tasks of the type, advanced once per         *)
+(*      successful completion, closed when run_tasks exits                                              *)
+
+TName(y) == IF "tnames" \in DOMAIN cfg THEN cfg.tnames[y] ELSE "T"
+Digits(c) == IF c <= 1 THEN 0 ELSE IF c <= 10 THEN 1 ELSE IF c <= 100 THEN 2 ELSE 3      \* ceil(log10(c))
+RECURSIVE ZFill(_, _)
+ZFill(str, w) == IF Len(str) >= w THEN str ELSE ZFill("0" \o str, w)
+MkName(y, k, w) == TName(y) \o "[" \o ZFill(ToString(k), w) \o "]"
+FirstPos(s, t) == CHOOSE i \in DOMAIN s : s[i] = t /\ \A j \in 1..(i - 1) : s[j] # t
+Rank(t) == Cardinality({i \in 1..FirstPos(subSeq, t) : cfg.typ[subSeq[i]] = cfg.typ[t]})
+G01_Names == \A t \in Tasks : names[t] # "" =>
+                /\ t \in Range(subSeq)
+                /\ names[t] = MkName(cfg.typ[t], Rank(t), Digits(Cardinality(TypeOf(Closure, cfg.typ[t]))))
+OkOf(y) == {t \in TypeOf(Tasks, y) : done[t] = "ok"}
+G02_Bars == Submitted # {} =>
+               /\ ~pbar[0].made
+               /\ \A y \in Types : /\ pbar[y].made <=> TypeOf(Closure, y) # {}
+                                   /\ pbar[y].made => pbar[y].total = Cardinality(TypeOf(Closure, y))
+G02_Count == \A y \in Types : /\ pbar[y].n <= Cardinality(OkOf(y))
+                              /\ ((atrest \/ phase # "running") /\ intCount = 0) => pbar[y].n = Cardinality(OkOf(y))
+G02_Closed == phase # "running" => \A y \in Types : pbar[y].made => pbar[y].closed
 =============================================================================
